@@ -1072,6 +1072,28 @@ fn sec_recover(s: &mut Sink, rng: &mut Rng, workloads: usize, mutations: usize) 
         // driver gets the pre-open bytes
         std::fs::write(&path, &pristine).unwrap();
     }
+    // larger files whose head is blank but which hold foreign content further in (the blank-device check must
+    // look at the whole file before the store claims it): a wiped header over a payload, a payload at the very end,
+    // a single non-zero byte somewhere
+    for i in 0..(if DUPGEN_ONLY.load(std::sync::atomic::Ordering::Relaxed) { 0 } else { 2 }) {
+        let blocks = rng.range(300, 800) as usize;
+        let mut img = vec![0u8; blocks * BS];
+        match rng.below(3) {
+            0 => { let from = rng.range(257, blocks as u64 - 1) as usize * BS; let tail = rng.bytes(img.len() - from); img[from..].copy_from_slice(&tail); }
+            1 => { let at = img.len() - 1 - rng.below(4096) as usize; img[at] = 0x5A; }
+            _ => { let at = rng.range(1 << 20, img.len() as u64 - 1) as usize; img[at] = 1 + rng.below(255) as u8; }
+        }
+        let mp = format!("{}/blankhead{}.feox", s.dir, i);
+        std::fs::write(&mp, &img).unwrap();
+        let keep = format!("{}.orig", mp);
+        std::fs::write(&keep, &img).unwrap();
+        let (op, line) = recover_line(s, &mp, false, false, base);
+        let op = op.replace(&mp, &keep);
+        let after = std::fs::read(&mp).unwrap();
+        let line = if after != img { format!("{} FILE-MODIFIED", line) } else { line };
+        s.emit("recover-blank-head", op, line);
+        let _ = std::fs::remove_file(&mp);
+    }
     // random bytes / unrecognisable files / size errors
     for i in 0..(workloads / 2).max(2) {
         let blocks = rng.range(17, 40) as usize;
